@@ -473,13 +473,18 @@ func (p *Prog) isCounterPositive(v ssa.Value) bool {
 // leaf enters the web).
 type phiLeaf struct {
 	V    ssa.Value
-	From *ssa.BasicBlock
+	From *ssa.BasicBlock // predecessor block through which the leaf enters the phi web
+	To   *ssa.BasicBlock // block of the phi it enters (nil when v is not a phi at all)
 }
 
 func phiLeaves(v ssa.Value, from *ssa.BasicBlock, seen map[*ssa.Phi]bool) []phiLeaf {
+	return phiLeaves2(v, from, nil, seen)
+}
+
+func phiLeaves2(v ssa.Value, from, to *ssa.BasicBlock, seen map[*ssa.Phi]bool) []phiLeaf {
 	ph, ok := v.(*ssa.Phi)
 	if !ok {
-		return []phiLeaf{{v, from}}
+		return []phiLeaf{{v, from, to}}
 	}
 	if seen[ph] {
 		return nil
@@ -487,9 +492,31 @@ func phiLeaves(v ssa.Value, from *ssa.BasicBlock, seen map[*ssa.Phi]bool) []phiL
 	seen[ph] = true
 	var out []phiLeaf
 	for i, e := range ph.Edges {
-		out = append(out, phiLeaves(e, ph.Block().Preds[i], seen)...)
+		out = append(out, phiLeaves2(e, ph.Block().Preds[i], ph.Block(), seen)...)
 	}
 	return out
+}
+
+// leafUnguarded: can the leaf's entering edge (From -> To) be taken on a path from the
+// function entry that crosses no pass edge of g?  (Edge-precise: when From ends in the
+// very If that carries the guard, the edge itself may be the pass edge.)
+func leafUnguarded(fn *ssa.Function, lf phiLeaf, g Guard) bool {
+	del := passEdges(fn, g)
+	if lf.From == nil {
+		return true
+	}
+	if !reach(fn, []*ssa.BasicBlock{fn.Blocks[0]}, del, nil)[lf.From.Index] {
+		return false
+	}
+	if lf.To == nil {
+		return true
+	}
+	for si, s := range lf.From.Succs {
+		if s == lf.To && !del[edge{lf.From.Index, si}] {
+			return true
+		}
+	}
+	return false
 }
 
 func c20Hysteresis(c *Ctx, re string) {
@@ -563,9 +590,6 @@ func c20Hysteresis(c *Ctx, re string) {
 		bo, ok := f.V.(*ssa.BinOp)
 		return ok && bo.Op == token.GTR && isLast(bo.X) && isIntConst(bo.Y, 0)
 	}}
-	entry := []*ssa.BasicBlock{hc.Blocks[0]}
-	reachNo := func(g Guard) map[int]bool { return reach(hc, entry, passEdges(hc, g), nil) }
-	withoutAllOK, withoutSomeFailed, withoutLastPos := reachNo(allOK), reachNo(someFailed), reachNo(lastPos)
 	if len(passEdges(hc, allOK)) == 0 {
 		c.Fail(re, "(*server.Server).healthCheck all-ok test", p.Pos(hc.Pos()), "no `len(failed) == 0` test found: the reset-on-success branch is missing")
 		return
@@ -578,12 +602,12 @@ func c20Hysteresis(c *Ctx, re string) {
 		switch {
 		case isN(lf.V):
 			sawN = true
-			c.Check(!withoutAllOK[lf.From.Index], re, key+" reset", pos, "counter reset to N only when no token failed", "counter is reset to the configured maximum on a path where some token failed (hysteresis lost)")
+			c.Check(!leafUnguarded(hc, lf, allOK), re, key+" reset", pos, "counter reset to N only when no token failed", "counter is reset to the configured maximum on a path where some token failed (hysteresis lost)")
 		case isDec(lf.V):
 			sawDec = true
-			c.Check(!withoutSomeFailed[lf.From.Index] && !withoutLastPos[lf.From.Index], re, key+" decrement", pos, "counter decremented only on failure and only while > 0", "counter decremented on a success path or below zero")
+			c.Check(!leafUnguarded(hc, lf, someFailed) && !leafUnguarded(hc, lf, lastPos), re, key+" decrement", pos, "counter decremented only on failure and only while > 0", "counter decremented on a success path or below zero")
 		case isLast(lf.V):
-			c.Check(!withoutSomeFailed[lf.From.Index], re, key+" unchanged", pos, "counter left unchanged only on the failure side (already 0)", "a fully successful check can leave the counter unchanged: one success does not restore health")
+			c.Check(!leafUnguarded(hc, lf, someFailed), re, key+" unchanged", pos, "counter left unchanged only on the failure side (already 0)", "a fully successful check can leave the counter unchanged: one success does not restore health")
 		default:
 			c.Fail(re, key+" value", pos, "value stored into the health counter is neither N, last-1 nor last: "+short(lf.V.String(), 60))
 		}
